@@ -578,11 +578,11 @@ def histories(ins, outs, level, all_subsets=False):
             if full != (i, o):
                 hs.append([{"in": i, "out": o}, {"in": full[0], "out": full[1]}])
     for (i1, o1), (i2, o2) in itertools.permutations(single, 2):
-        disjoint = i1 != i2 and o1 != o2
-        if disjoint or level > 1:  # disjoint: the union contains two blocks nobody asked for explicitly
-            hs.append([{"in": i1, "out": o1}, {"in": i2, "out": o2}])
-            if level > 1 and disjoint:
-                hs.append([{"in": i1, "out": o1}, {"in": i2, "out": o2, "pt": 1}])
+        # same input / same output: only one side of the request grows; disjoint: the union contains two blocks
+        # nobody asked for explicitly
+        hs.append([{"in": i1, "out": o1}, {"in": i2, "out": o2}])
+        if level > 1 and i1 != i2 and o1 != o2:
+            hs.append([{"in": i1, "out": o1}, {"in": i2, "out": o2, "pt": 1}])
     return hs
 
 
@@ -681,14 +681,15 @@ def gen_cases(ctx, table):
                     hs.append([{"in": ins[:1], "out": outs[-1:]}, {"all": True, "pt": 1}])
                 if thorough:
                     hs.append([{"in": ins, "out": outs}])
+                threads = "par" in tree_kind(tree) or "add" in tree_kind(tree)
                 for reps in rep_sets:
-                    if not tree_supports(tree, reps):
+                    if not tree_supports(tree, reps) or (threads and not thorough and len(set(reps)) > 1):
                         continue
                     for h in hs:
                         yield mk("P4", specs, tree, h, reps=reps)
                     if thorough:
                         yield mk("P4", specs, tree, hs[0], reps=reps, sizes=SIZES_QUICK[2])
-                for sizes in size_sets:
+                for sizes in size_sets if thorough or not threads else size_sets[2:]:
                     for h in hs[:2] if thorough else hs[:1]:
                         yield mk("P4", specs, tree, h, sizes=sizes)
         # three disciplines, mixed representations along a chain
@@ -730,7 +731,7 @@ def run(ctx):
         + "; two-request histories on the same process for MDOChain/MDAChain/chain[chain,D]"
         + (" and (reduced) every other kind" if th else "")
         + ": subset->all (same" + ("/moved" if th else "") + " point), all->subset (" + ("same/" if th else "") + "moved point), "
-        + ("subset->full, every ordered pair of singleton requests" if th else "ordered pairs of disjoint singleton requests")
+        + ("subset->full, " if th else "") + "every ordered pair of singleton requests" + (" (disjoint ones also at a moved point)" if th else "")
         + ("; representatives with 3-4 names on a side: singleton and full requests" if th else ""),
         "P3": "three disciplines, <= 2 reads, " + ("<= 2 writes: every composition (10^6, every sort order) as MDOChain; single-write representatives as every other kind incl. 6 nestings" if th else "1 write: representatives x every kind incl. 6 nestings") + ", all Jacobians",
         "P3r": "three single-write disciplines (representatives) as MDOChain/MDAChain" + ("/chain[chain,D]/chain[D,par]" if th else "") + ": singleton and full requests" + (", singleton request then all Jacobians at a moved point" if th else ""),
